@@ -183,7 +183,7 @@ MatrixChecksWith(e, useBnd) ==
                            \/ (FIsFinite(est[p]) /\ FLt(est[p], FInt(0)) /\ FLt(FNeg(Eps), est[p]))      \* rounding noise below zero
                            \/ (NoCountedDiff(rows, o, sel, p[1], p[2]) /\ FEq(obs(p[1], p[2]), FInt(0))),   \* no difference: 0 whatever the frequencies
       \* a pair on the boundary: undefined, or a (large) distance - never below the observed proportion of differences
-      boundaryClass |-> \A p \in bnd : FIsNaN(obs(p[1], p[2])) \/ FLe(FSub(PDist(rows, o, sel, p[1], p[2]), Tol), obs(p[1], p[2])),
+      boundaryClass |-> \A p \in bnd : FIsNaN(obs(p[1], p[2])) \/ (FIsFinite(obs(p[1], p[2])) /\ FLe(FSub(PDist(rows, o, sel, p[1], p[2]), Tol), obs(p[1], p[2]))),
       \* (an estimate that is undefined for the whole alignment - degenerate base frequencies - stays undefined)
       zeroWhenEqual |-> \A p \in pairs : NoCountedDiff(rows, o, sel, p[1], p[2]) =>
                            (FEq(obs(p[1], p[2]), FInt(0)) \/ (FIsNaN(est[p]) /\ FIsNaN(obs(p[1], p[2])))),
